@@ -48,8 +48,13 @@ fn looped(g: &gen::Generated, iterations: i64) -> Option<Program> {
             rewrite(&mut l.stmts, Stmt::Return);
         }
     }
-    // DIM / DEFtype / DEF must not be repeated: the loop head is the first line behind them
-    let first_body = p.lines.iter().position(|l| !l.stmts.iter().any(|s| matches!(s, Stmt::Dim(_) | Stmt::DefType(..) | Stmt::Def { .. } | Stmt::Data(_))))?;
+    // DIM (REDIMENSIONED ARRAY) and DEFtype (drops variables) must not be repeated: the loop head
+    // is the first line behind the last of them. DEF is a statement like any other: executing it
+    // again and again must leave nothing behind.
+    let first_body = match p.lines.iter().rposition(|l| l.stmts.iter().any(|s| matches!(s, Stmt::Dim(_) | Stmt::DefType(..)))) {
+        Some(i) => i + 1,
+        None => 0,
+    };
     if first_body >= main_end {
         return None;
     }
